@@ -74,6 +74,21 @@ def sliced_blocks(wide: list[Atom]):
             yield ("!nolead", *names(seq))
 
 
+def zero_block_start(wide: list[Atom]):
+    """A zero-length array (element alignment > 1) where a block of plain fields starts - behind a bit-field, a nested struct or a dynamic
+    member - followed by plain fields: the block must still be positioned."""
+    pre = [a for a in wide if a.name in ("uint8:4", "uint16:4", "in_t", "char[n0]", "in_t[2]", "uint8")]
+    zero = [a for a in wide if a.name == "uint32[0]"][0]
+    post = [a for a in wide if a.name in ("uint8", "uint16", "uint64", "char")]
+    for a in pre:
+        for b in post:
+            yield (a, zero, b)
+            if "n0" not in a.name:
+                yield ("!nolead", a.name, zero.name, b.name)
+            for c in post[:2]:
+                yield (a, zero, b, c)
+
+
 def nolead_defs(atoms: list[Atom], k: int):
     """Definitions *without* the leading uint8 n0 (the first field is the atom itself): first-field behaviour."""
     for seq in product_defs([a for a in atoms if "n0" not in a.name], k):
@@ -120,12 +135,14 @@ def space(tier: str, which: str):
             yield from emit(bit_pairs_with_tail(W))
             yield from emit(bit_pairs_split(W))
             yield from emit(sliced_blocks(W))
+            yield from emit(zero_block_start(W))
             yield from emit(nolead_defs(W, 1))
             yield from emit(nolead_defs(C, 2))
         else:
             yield from emit(bit_pairs_with_tail(W))
             yield from emit(bit_pairs_split(W))
             yield from emit(sliced_blocks(W))
+            yield from emit(zero_block_start(W))
             yield from emit(nolead_defs(W, 2))
             yield from emit(nolead_defs(C, 3))
             yield from emit(product_defs(W, 2))
